@@ -61,6 +61,10 @@ def gen_docstring(draw: Any, b: Builder, indent: int, kind: str, params: List[st
     prefix = draw(st.sampled_from(['', '', 'r']))
     on_opening_line = draw(st.booleans())
     leading_blank = 0 if on_opening_line else draw(st.integers(0, 3))
+    # blank lines may carry whitespace (editors keep the block's indentation on them) and the opening quotes may be
+    # followed by trailing blanks; a whitespace-only line deeper than the text is kept by inspect.cleandoc (F35)
+    blank_ws = draw(st.sampled_from(['', '', 'indent', 'partial', 'tab-free-spaces', 'deeper']))
+    quote_trailing = '' if on_opening_line else draw(st.sampled_from(['', '', ' ', '   ']))
     nblocks = draw(st.integers(1, 3))
     blocks: List[Dict[str, Any]] = []
     for bi in range(nblocks):
@@ -164,9 +168,9 @@ def gen_docstring(draw: Any, b: Builder, indent: int, kind: str, params: List[st
             opened = True
             if on_opening_line:
                 return emit(pad + prefix + quote + text.lstrip())
-            emit(pad + prefix + quote)
+            emit(pad + prefix + quote + quote_trailing)
             for _ in range(leading_blank):
-                emit('')
+                emit({'': '', 'indent': pad, 'partial': pad[:len(pad) // 2], 'tab-free-spaces': ' ' if pad else '', 'deeper': pad + '      '}[blank_ws])
         return emit(text)
     for bi, blk in enumerate(blocks):
         if bi:
